@@ -19,6 +19,7 @@ RULE = ("Generated: portfolios of 1-5 assets over 1-3 nodes from SimpleContract/
         "every reference bound and row and attains V. Non-trivial: optimum != 0, >= 2 asset classes with non-zero "
         "dispatch and one of {efficiency != 1, inflow, take row present, spread, wacc != 0, partial window}. "
         "Distinct = distinct spec hash.")
+RULE += (' Shapes (round 5): the lean storage formulation (one variable per step) with holding cost and discounting; capacities as numpy arrays, one rate per step; purchase contracts with a spread whose capacity is zero in some steps.')
 ASSUMPTIONS = ["reference formulation as stated in refmodel.py's docstring (level and holding cost at the end of the step)",
                "take periods lie on step boundaries; assets with takes have no own window (prorating by the part inside "
                "the horizon is then unambiguous)",
